@@ -83,6 +83,32 @@ EF256   == Fill(5, 256)
 EH20    == HashOf("hash160", Raw(<<9, 9>>))
 EH32    == HashOf("sha256", Raw(<<9, 9>>))
 
+(* keys and signatures *)
+K1c == KeyElem("K1", 2)
+K1u == KeyElem("K1", 4)
+K1h == KeyElem("K1", 6)
+K1x == KeyElem("K1", 32)
+K1bad == KeyElem("K1", 1)
+K1s31 == KeyElem("K1", 31)
+K2c == KeyElem("K2", 2)
+K2x == KeyElem("K2", 32)
+K3c == KeyElem("K3", 2)
+\* ECDSA signature by key k, SIGHASH_ALL, strict DER, for sigversion code svc, no code separator
+SigBy(k, svc) == SigElem(k, 1, 0, svc, 0)
+\* the ECDSA signature variants for sigversion code svc
+SigVariants(svc) == {SigBy("K1", svc),
+                     SigElem("K1", 1, 1, svc, 0),      \* high S
+                     SigElem("K1", 1, 2, svc, 0),      \* BER, not DER
+                     SigElem("K1", 4, 0, svc, 0),      \* undefined hash type
+                     SigElem("K1", 131, 0, svc, 0),    \* SINGLE|ANYONECANPAY
+                     SigElem("K1", 1, 0, svc, 1)}      \* made for the code after a code separator at position 1
+\* schnorr signatures for tapscript
+SchnorrVariants == {SigElem("K1", 0, 64, 2, 0),        \* 64 bytes, default hash type
+                    SigElem("K1", 1, 64, 2, 0),        \* 65 bytes, SIGHASH_ALL
+                    SigElem("K1", 4, 64, 2, 0),        \* 65 bytes, undefined hash type
+                    SigElem("K1", 0, 64, 2, 1),        \* for code separator position 1
+                    SigElem("K1", 0, 64, 3, 0)}        \* a key-path signature
+
 -----------------------------------------------------------------------------
 (* all one-byte opcodes by btcd name (OP_1..OP_16 are OP_N, undefined bytes OP_UNKNOWN) *)
 NamedOps == {
